@@ -26,8 +26,20 @@ Theorem C06_ops_total_partial : forall (f : file) (xs : list op) (o : list bool)
 Proof. exact ops_total_wf. Qed.
 Print Assumptions C06_ops_total_partial.
 
-(* … FlattenBatches included when every batch header carries a SEC code NewBatch accepts
-   (known finding panic:ach.mergeableBatcher.Consume otherwise) *)
+(* … FlattenBatches included (mergeableBatcher.Copy keeps a plain Batch when NewBatch rejects the SEC code; until that
+   repair this needed every batch header to carry a SEC code NewBatch accepts, see the two statements below) *)
+Theorem C06_ops_total_all_partial : forall (f : file) (xs : list op) (o : list bool),
+  wf_file f = true -> panics (run_ops xs f o) = false.
+Proof. exact ops_total_all. Qed.
+Print Assumptions C06_ops_total_all_partial.
+
+Theorem C06_ops_result_total_all_partial : forall (f : file) (xs : list op) (o : list bool),
+  wf_file f = true -> panics (run_ops_result xs f o) = false.
+Proof. exact ops_result_total_all. Qed.
+Print Assumptions C06_ops_result_total_all_partial.
+
+(* … the same under the stronger hypothesis that every batch header carries a SEC code NewBatch accepts
+   (the shape invariant of the Reader's files) *)
 Theorem C06_ops_total_strict_partial : forall (f : file) (xs : list op) (o : list bool),
   wf_file_strict f = true -> panics (run_ops xs f o) = false.
 Proof. exact ops_total_strict. Qed.
@@ -58,7 +70,7 @@ Theorem C06_ops_refuted_witnesses :
   (file_class nil_iat_control_file = ShNilIATControl /\ run_op OCreate nil_iat_control_file [] = PANIC) /\
   (file_class nil_iat_entry_file = ShNilIATEntry /\ run_op OWriteBypass nil_iat_entry_file [] = PANIC) /\
   (file_class nil_iat_addenda_file = ShNilIATAddenda /\ run_op OBatchCreate nil_iat_addenda_file [] = PANIC) /\
-  (wf_file unknown_sec_file = true /\ wf_file_strict unknown_sec_file = false /\ run_op OFlatten unknown_sec_file [] = PANIC).
+  (wf_file unknown_sec_file = true /\ wf_file_strict unknown_sec_file = false /\ panics (run_op OFlatten unknown_sec_file []) = false).
 Proof. exact ops_total_refuted_witnesses. Qed.
 Print Assumptions C06_ops_refuted_witnesses.
 
